@@ -657,7 +657,7 @@ def eval_set_mode(ctx, mode_value):
     return env[sm.self_name]
 
 
-def r07_mode_table(ctx, props=("C15",)):
+def r07_mode_table(ctx, props=P15_03):
     rep = ctx.rep
     rule = "R07.mode-table"
     facts = calendar_facts(ctx)
@@ -722,6 +722,43 @@ def r07_mode_table(ctx, props=("C15",)):
                   "lengths and derived constants" % mode,
                   "set_mode(%r) yields %s" % (mode, "; ".join(diffs)),
                   props + ("C11",))
+    # every *_LEAP attribute set_mode derives is derived from leap sources
+    # (an attribute built from its common-year sibling is a wrong table the
+    # moment anything reads it)
+    rule_l = "R07.leap-derivation"
+    reads = {}
+    for fn_ in ctx.model.all_functions():
+        if fn_ is sm:
+            continue
+        for n in walk_no_nested(fn_.node):
+            if isinstance(n, ast.Attribute) and isinstance(
+                    n.ctx, ast.Load) and n.attr.endswith("_LEAP"):
+                reads.setdefault(n.attr, []).append(fn_.qual)
+    for n in walk_no_nested(sm.node):
+        if isinstance(n, ast.Assign) and len(n.targets) == 1 and isinstance(
+                n.targets[0], ast.Attribute) and \
+                n.targets[0].attr.endswith("_LEAP"):
+            attr = n.targets[0].attr
+            srcs = {x.attr if isinstance(x, ast.Attribute) else x.id
+                    for x in ast.walk(n.value)
+                    if isinstance(x, (ast.Attribute, ast.Name))}
+            leapish = any("leap" in x.lower() for x in srcs)
+            if leapish:
+                rep.ok(rule_l, ctx.fkey(sm, None, "derived:" + attr),
+                       sm.loc(n), "%s is derived from leap-year sources" %
+                       attr, props)
+            elif attr in reads:
+                rep.violation(
+                    rule_l, ctx.fkey(sm, None, "derived:" + attr), sm.loc(n),
+                    "set_mode builds %s from %s - no leap-year source - and "
+                    "%s reads it: leap years are given the common-year "
+                    "table there" % (attr, sorted(srcs - {sm.self_name}),
+                                     sorted(set(reads[attr]))[:3]), props)
+            else:
+                rep.note(rule_l, "set_mode builds %s from %s (no leap-year "
+                         "source); nothing reads the attribute, so no "
+                         "behaviour depends on it today" % (
+                             attr, sorted(srcs - {sm.self_name})), props)
     # leap rule -------------------------------------------------------------
     rule2 = "R07.leap-rule"
     rep.need_anchor(rule2, "get_is_leap_year")
